@@ -816,22 +816,57 @@ def c06(run, an=None):
 # ------------------------------------------------------------------------------------------------
 
 def c07(run, an=None):
+    """In use = accepted and still waiting for ITS final acknowledgement (decided from the history of
+    consumed acknowledgements, not from the client's own bookkeeping), plus the client's own lists."""
+    an = an or Analysis(run)
     out = []
-    prev = None
+    inuse = {}              # id -> dict(kind, rec)
+    gen = None
     for st in run.steps:
+        s = st.state
+        # acknowledgements consumed in this step
+        for (when, side, p) in an.events:
+            if side != "S" or when[0] != st.idx:
+                continue
+            if p["type"] == "CONNACK":
+                if p["rc"] < 0x80 and not p["session_present"]:
+                    inuse = {}
+                continue
+            i = p.get("id")
+            u = inuse.get(i)
+            if u is None:
+                continue
+            if p["type"] == "PUBACK" and u["kind"] == "pub1":
+                del inuse[i]
+            elif p["type"] == "PUBREC" and u["kind"] == "pub2":
+                if norm_rc(p["rc"]) >= 0x80 and not u["rec"]:
+                    del inuse[i]
+                else:
+                    u["rec"] = True
+            elif p["type"] == "PUBCOMP" and u["kind"] == "pub2" and u["rec"]:
+                del inuse[i]
+            elif p["type"] == "SUBACK" and u["kind"] == "sub":
+                del inuse[i]
+            elif p["type"] == "UNSUBACK" and u["kind"] == "unsub":
+                del inuse[i]
+        if s is not None and gen is not None and s.gen != gen:
+            inuse = {}
         for e in st.events:
             m = re.match(r"ret (publish|subscribe|unsubscribe) ok op (\d+) (\w+) (\d+) (\d+)", e)
             if m:
-                ident = int(m.group(4))
+                ident, kind = int(m.group(4)), m.group(3)
                 if ident == 0:
                     out.append(V("C07", "zero-id", e, step=st.idx))
-        if st.state is not None:
-            ids = st.state.ret_ids() + st.state.rel_ids()
+                if ident in inuse:
+                    out.append(V("C07", "id-reused-while-in-use", f"{e}: identifier {ident} still belongs to a {inuse[ident]['kind']} operation waiting for its final acknowledgement", step=st.idx))
+                inuse[ident] = {"kind": kind, "rec": False}
+        if s is not None:
+            ids = s.ret_ids() + s.rel_ids()
             if 0 in ids:
-                out.append(V("C07", "zero-id", st.state.raw, step=st.idx))
+                out.append(V("C07", "zero-id", s.raw, step=st.idx))
             if len(ids) != len(set(ids)):
-                out.append(V("C07", "duplicate-id-in-flight", f"in flight: retained {st.state.ret_ids()} release {st.state.rel_ids()}", step=st.idx))
-            prev = st
+                out.append(V("C07", "duplicate-id-in-flight", f"in flight: retained {s.ret_ids()} release {s.rel_ids()}", step=st.idx))
+            gen = s.gen
     return out
 
 
@@ -911,8 +946,53 @@ def norm_rc(rc):
     return rc if rc in KNOWN_RC else 0xFF
 
 
-def c08(run, an=None):
+def valid_stream_rejected(run, an, prop):
+    """Every packet the broker sent on this transport is a valid, acceptable server packet that fits
+    the receive buffer: then the client must never answer with the invalid-packet error."""
     out = []
+    rxcap = int(run.cfg.get("rx", "0"))
+    for t, n in enumerate(run.nets):
+        data = bytes(n["rx"])
+        if not data:
+            continue
+        pkts, tail, err = parse_server_stream(data)
+        if err or tail or not pkts:
+            continue
+        ok = True
+        for k, p in enumerate(pkts):
+            if p["len"] > rxcap:
+                ok = False
+            if k == 0:
+                if p["type"] != "CONNACK":
+                    ok = False
+                else:
+                    try:
+                        q, _ = parse_server_packet(p["raw"], 0, strict=True)
+                        for pid, v in q.get("props", []):
+                            if (pid == 0x12 and len(v) > 64) or (pid == 0x24 and v > 1):
+                                ok = False
+                    except (Malformed, Incomplete):
+                        ok = False
+            elif p["type"] not in ("PUBLISH", "PUBACK", "PUBREC", "PUBREL", "PUBCOMP", "SUBACK", "UNSUBACK", "PINGRESP"):
+                ok = False
+            elif p.get("id") == 0:
+                ok = False
+            if "props_raw" in p and k > 0:
+                try:
+                    props_block_items(p["props_raw"])
+                except Malformed:
+                    ok = False
+        if not ok:
+            continue
+        for st in run.steps:
+            if st.net_after == t and any(re.match(r"ret \w+ err Peer.InvalidPacket", e) for e in st.events):
+                out.append(V(prop, "valid-stream-rejected", f"transport {t}: the broker sent only valid packets ({[p['type'] for p in pkts][:8]}…) but the client reported an invalid packet", step=st.idx))
+                break
+    return out
+
+
+def c08(run, an=None):
+    out = valid_stream_rejected(run, an, "C08")
     if run.ended == "panic":
         out.append(V("C08", "panic", "the client panicked", step=len(run.steps) - 1))
     for st in run.steps:
@@ -1915,5 +1995,57 @@ def c15_twin(a, b):
     return out
 
 
+def relabel(vs, prop, kinds):
+    out = []
+    for v in vs:
+        if v["kind"] in kinds and v["finding"] is None:
+            w = dict(v)
+            w["prop"] = prop
+            out.append(w)
+    return out
+
+
+def read_progress_lost(run, an, prop):
+    """When an operation is dropped, every byte it took from the transport must be accounted for in
+    the reader (committed before the next await); otherwise the rest of the stream is misaligned."""
+    out = []
+    for t, n in enumerate(run.nets):
+        data = bytes(n["rx"])
+        pkts, tail, err = parse_server_stream(data)
+        if err:
+            continue
+        ends = [p["end"] for p in pkts]
+        consumed = 0
+        reads = list(n["reads"])
+        for st in run.steps:
+            for (si, ei, cum) in reads:
+                if si == st.idx:
+                    consumed = cum
+            if st.state is None or st.net_after != t or st.state.live != "1":
+                continue
+            if not any(e == "cancel" for e in st.events) and st.op != "cancel":
+                continue
+            done = max([e for e in ends if e <= consumed], default=0)
+            want = consumed - done
+            got = int(st.state.rd.split("/")[0])
+            if got != want:
+                out.append(V(prop, "consumed-bytes-lost", f"transport {t}: {consumed} bytes were read, {done} belong to complete packets, so {want} must be pending in the reader, but it holds {got}: the dropped operation lost bytes it had taken", step=st.idx))
+                break
+    return out
+
+
+def c13(run, an=None):
+    """Single-run part of C13: whatever was cancelled, every valid inbound PUBLISH is still handed
+    over exactly as sent and a valid stream is never rejected (the twin comparison is c13_twin)."""
+    an = an or Analysis(run)
+    return valid_stream_rejected(run, an, "C13") + read_progress_lost(run, an, "C13") + \
+        relabel(c04(run, an), "C13", ("not-delivered", "delivered-differs", "duplicate-delivered"))
+
+
+def c15(run, an=None):
+    an = an or Analysis(run)
+    return valid_stream_rejected(run, an, "C15") + relabel(c04(run, an), "C15", ("not-delivered", "delivered-differs", "duplicate-delivered"))
+
+
 MONITORS = {"C01": c01, "C02": c02, "C03": c03, "C04": c04, "C05": c05, "C06": c06, "C07": c07, "C08": c08, "C09": c09,
-            "C10": c10, "C11": c11, "C12": c12, "C14": c14, "C16": c16, "C17": c17, "C18": c18, "C19": c19, "C20": c20}
+            "C10": c10, "C11": c11, "C12": c12, "C13": c13, "C14": c14, "C15": c15, "C16": c16, "C17": c17, "C18": c18, "C19": c19, "C20": c20}
